@@ -1,0 +1,14 @@
+//go:build verif
+
+package outbox
+
+import (
+	"context"
+
+	"github.com/jdillenkofer/pithos/internal/storage"
+)
+
+// ProcessOnce runs one pass of the storage outbox worker (verification harness only).
+func ProcessOnce(ctx context.Context, s storage.Storage) {
+	s.(*outboxStorage).maybeProcessOutboxEntries(ctx)
+}
